@@ -1,4 +1,5 @@
 CONSTANT Want = {"c18"}
+CONSTANT Conform = FALSE
 INIT TraceInit
 NEXT TraceNext
 INVARIANTS C18_Retention
